@@ -2,6 +2,7 @@ package props
 
 import (
 	"math"
+	"runtime/debug"
 	"strings"
 	"testing"
 
@@ -541,7 +542,10 @@ func TestC20Grid(t *testing.T) {
 	if f := c20MaxPrecSlice(); f != nil {
 		h.ReportGridFail(t, "C20", f, mustJSON(c))
 	}
-	h.AddExtra("C20", "giant_slice_cases", 3)
+	if f := c20BeyondMaxPrecSlices(); f != nil {
+		h.ReportGridFail(t, "C20", f, mustJSON(c))
+	}
+	h.AddExtra("C20", "giant_slice_cases", 6)
 }
 
 // TestC20GridMaxPrec (run with the grid): a slice with more digits than MaxPrec (226 050 911 words, 1.8 GB of
@@ -578,4 +582,42 @@ func FuzzSetBitsExp(f *testing.F) {
 			h.FuzzFail(t, "C20", fail, c)
 		}
 	})
+}
+
+// c20BeyondMaxPrecSlices: slices of more than 2^32 digits (226 050 913 words) into receivers of precision 1 and 5 - the
+// rounding digit's index itself does not fit 32 bits - and the same length made almost entirely of leading zero words
+// with an exponent of 6.4e9 that brings the value back to the top of the range.
+func c20BeyondMaxPrecSlices() *h.Fail {
+	debug.FreeOSMemory()
+	defer debug.FreeOSMemory()
+	const L = 226050913
+	mant := make([]decimal.Word, L)
+	// 0.15 0...0 1: at precision 1 a tie decided by the lowest word
+	mant[L-1], mant[0] = 1500000000000000000, 1
+	z := new(decimal.Decimal).SetPrec(1)
+	z.SetBitsExp(mant, 0)
+	if got := h.Read(z); got.Malformed != "" || !got.Val().Equal(model.MkFinite(false, "2", 0)) || model.Acc(got.Acc) != model.Above {
+		return h.Failf("value", "SetBitsExp of %d words (0.15, zeros, a final 1) at precision 1 ToNearestEven: %v (%v), want 0.2 (Above)", L, got.Val(), model.Acc(got.Acc))
+	}
+	mant, z = nil, nil
+	debug.FreeOSMemory() // one 1.8 GB slice at a time
+	mant = make([]decimal.Word, L)
+	mant[L-1], mant[L-2] = 1234549999999999999, 9999999999999999999 // 0.12345|4999...9 then zeros: just below a tie at precision 5
+	z = new(decimal.Decimal).SetPrec(5).SetMode(decimal.ToNearestAway)
+	z.SetBitsExp(mant, 3)
+	if got := h.Read(z); got.Malformed != "" || !got.Val().Equal(model.MkFinite(false, "12345", 3)) || model.Acc(got.Acc) != model.Below {
+		return h.Failf("value", "SetBitsExp of %d words (0.12345 4999..9, zeros) at precision 5 ToNearestAway: %v (%v), want 0.12345e3 (Below)", L, got.Val(), model.Acc(got.Acc))
+	}
+	// leading zeros worth 4.29e9 digits, exponent 6.44e9: 0.7 x 10^(MaxExp-5)
+	mant, z = nil, nil
+	debug.FreeOSMemory()
+	mant = make([]decimal.Word, L)
+	mant[0] = 7
+	exp := int64(model.MaxExp) - 5 + 19*L - 1
+	z = new(decimal.Decimal).SetPrec(34)
+	z.SetBitsExp(mant, exp)
+	if got := h.Read(z); got.Malformed != "" || !got.Val().Equal(model.MkFinite(false, "7", model.MaxExp-5)) || got.Acc != 0 {
+		return h.Failf("value", "SetBitsExp([7, 0 x %d], %d) = %v, want 0.7e%d exactly", L-1, exp, got, model.MaxExp-5)
+	}
+	return nil
 }
